@@ -63,8 +63,10 @@ theorem doOp_noFire (ts : Int) (h : Hook) (op : OpSpec) (st : St) : (doOp ts h o
   split
   · rfl
   · split
-    · rfl
     · split <;> rfl
+    · split
+      · rfl
+      · split <;> rfl
 
 theorem runOps_noFire (ts : Int) (h : Hook) : ∀ (ops : List OpSpec) (st : St), (runOps ts h ops st).1.filterMap fireOfEv = []
   | [], _ => rfl
